@@ -1,10 +1,33 @@
 #!/bin/sh
 # MANIFEST.setup_cmd: build the framework from files on disk only (offline).
-set -e
+# Builds the tools and pre-builds the Lean modules and driver executables of every claimed check, so the
+# checks' own incremental `lake build` calls are fast. A failure here for one property does not stop the
+# others: each check rebuilds what it needs and reports a broken obligation itself.
 cd "$(dirname "$0")"
 export GOFLAGS=-mod=mod GOPROXY=off GOSUMDB=off GOTOOLCHAIN=local GOCACHE="$PWD/.build/gocache"
 mkdir -p .build/bin evidence replays
-(cd tools/srcfacts && go build -o ../../.build/bin/srcfacts .)
-.build/bin/srcfacts -repo "${VERIF_REPO:-/repo}" -json .build/facts.json -lean lean/Got/Generated || [ $? -eq 3 ]
-(cd lean && lake build)
+(cd tools/srcfacts && go build -o ../../.build/bin/srcfacts .) || exit 1
+.build/bin/srcfacts -repo "${VERIF_REPO:-/repo}" -json .build/facts.json -lean lean/Got/Generated
+python3 - <<'PY'
+import json, subprocess, sys, importlib, os
+sys.path.insert(0, os.getcwd())
+m = json.load(open("MANIFEST.json"))
+targets = []
+for c in m["checks"]:
+    pid = c["property_id"]
+    targets.append("Got.Props." + pid)
+    try:
+        spec = importlib.import_module("checklib." + pid.lower()).SPEC
+        for d in [getattr(spec, "driver", None)] + list(getattr(spec, "extra_drivers", [])):
+            if d and d not in targets:
+                targets.append(d)
+    except Exception as e:
+        print("setup: cannot import checklib.%s: %s" % (pid.lower(), e))
+print("setup: lake build", " ".join(targets))
+r = subprocess.run(["lake", "build"] + targets, cwd="lean")
+if r.returncode != 0:
+    # build target by target so one broken family does not leave the others unbuilt
+    for t in targets:
+        subprocess.run(["lake", "build", t], cwd="lean")
+PY
 echo "setup done"
